@@ -85,6 +85,12 @@ CHECKS = {
         text="TLC computes K, S1, S2 for both roles (asserting on the specification that initiator and responder reach the same point) over random and boundary keys, identities of 0..8191 bytes, key lengths 1..1024, and - found by TLC search - long-term, ephemeral and shared points whose coordinates have leading zero bytes; both real parties must return exactly these values; a peer ephemeral value off the curve or at infinity must give an error.",
         note="Exploration over enumerated cases on the real curve only (keyExchange is hard-wired to P256Sm2). Trusts BigInteger, SM3.tla.",
         ref="DESIGN.md section 5 C13"),
+    "C14": dict(
+        level="exploration",
+        technique="TLA+ spec Codec (integer serialisation conventions as writer/reader pairs; round trip checked by TLC over all model integers, with the repaired minimal-hex deviation as a switch the model must reject); table of (serialiser, value shape, password class) cases replayed on real keys, signatures and ciphertexts realising each shape; loader table",
+        text="For hex private/public keys, compressed points, PKIX and PKCS#8 PEM (no / empty / ASCII / UTF-8 / 1 KiB password), ASN.1 signatures and ASN.1 ciphertexts, values with 1 (thorough: 2) leading zero bytes, a leading zero nibble or the high bit set in d, x, y, r, s or C1 are written and read back and must be unchanged; password-protected keys must not decode under five wrong-password variants; X509KeyPair, GMX509KeyPairs(Single) and the three file loaders must accept a matching certificate/key and reject another key or swapped sign/enc keys.",
+        note="Exploration over shapes, not over all keys. Keys with short public coordinates are found by searching small private keys with the library's own scalar multiplication (their shape is then checked on the bytes).",
+        ref="DESIGN.md section 5 C14"),
     "C15": dict(
         level="fault_enumeration",
         technique="TLA+ spec TLCPPeer (endpoint flight grammar as a state machine + one peer deviation), every (role, position, deviation) explored by TLC to its verdict; each case realised by a message-level interposer between the endpoint under test and an honest gmtls peer",
